@@ -7,6 +7,7 @@ import Pdlv.Lemmas.JavaArrays
 import Pdlv.Lemmas.JavaEnumArrays
 import Pdlv.Lemmas.JavaSerChild
 import Pdlv.JavaStruct
+import Pdlv.Lemmas.JavaStructSame
 import Pdlv.Thm.C03
 
 namespace Pdlv
@@ -116,6 +117,18 @@ theorem java_reads_arrays_and_payloads (c : Cfg) (nm : String) (items : Items) (
       Pdlv.decodeFull { e := c.e, mode := .ideal } (.root nm items) bs = .ok v :=
   decode_same2 c nm items hw bs hb v
 
+/-- **C19, parser with struct-typed fields.**  The class of `java_reads_arrays_and_payloads` extended by fields typed by a
+    struct without payload, of static size, whose own fields are in that class (`Java.decWfItems3`): the model of the emitted
+    `fromBytes` — the struct parsed from `buf.slice()`, the buffer then advanced by the struct's constant `width()` — accepts
+    exactly what the reference `decode_full` accepts, with the same (nested) field values, for every byte string below 2^31
+    octets.  (The reference continues where the struct's parser stopped; that is `width()` octets on: `decItems_exact_len`,
+    `decItems_suffix`.) -/
+theorem java_reads_struct_fields (c : Cfg) (nm : String) (items : Items) (hw : decWfItems3 items = true)
+    (bs : Bytes) (hb : bs.length < 2 ^ 31) (v : Value) :
+    Java.decodeFullS c (.root nm items) bs = .ok v ↔
+      Pdlv.decodeFull { e := c.e, mode := .ideal } (.root nm items) bs = .ok v :=
+  decode_same3 c nm items hw bs hb v
+
 /-- the model the driver runs against the emitted classes also covers struct-typed fields (`Pdlv.JavaStruct`: the struct parsed
     from `buf.slice()`, the buffer advanced by its `width()`; compared by execution, no theorem of their own); on the classes of
     the two theorems above it IS the model they are about -/
@@ -128,11 +141,12 @@ theorem java_struct_model_is_the_same_on_the_classes (c : Cfg) (nm : String) (it
 example :
     let sb : Body := .root "S" (.cons (.chunk [.scalar "a" 8]) (.cons (.chunk [.scalar "b" 16]) .nil))
     let items : Items := .cons (.chunk [.scalar "k" 8]) (.cons (.typedef "s" (.struct "S" sb) (some 3)) (.cons (.chunk [.scalar "t" 8]) .nil))
+    decWfItems3 items = true ∧
     Java.decodeFullS { e := .little } (.root "P" items) [1, 2, 0x34, 0x12, 9] =
       .ok (.obj [("k", .int 1), ("s", .obj [("a", .int 2), ("b", .int 0x1234)]), ("t", .int 9)]) ∧
     Java.encBodyS { e := .little } (.root "P" items)
       (.obj [("k", .int 1), ("s", .obj [("a", .int 2), ("b", .int 0x1234)]), ("t", .int 9)]) = .ok [1, 2, 0x34, 0x12, 9] := by
-  refine ⟨by rfl, by rfl⟩
+  refine ⟨by decide, by rfl, by rfl⟩
 
 /-- **KF-C19-int-chunk**: `packet P { a: 9, b: 2, c: 29 }` (one group of 40 bits, every field at most 32 bits wide) with
     `c = 0x1fffffff`: `c << 11` is computed in `int` and loses its high bits; the emitted bytes are `01 fa ff ff 00`
